@@ -35,7 +35,7 @@ ASSUMPTIONS = [
     "h/0 and normalize() of an empty histogram are left open (C18 judges the state after the exception)",
     "a negative factor on an all-zero histogram produces no negative content and may be accepted",
 ]
-BOUNDS = {"quick": "chains <= 3 on 8 base histograms, 21 typed scalars x 5 operations", "thorough": "chains <= 4, float16/32/128 base dtypes"}
+BOUNDS = {"quick": "chains <= 3 on 8 base histograms, 21 typed scalars x 5 operations", "thorough": "chains <= 6 (7 on the int and 2D bases), float16/32/128 base dtypes"}
 BUDGET = {"quick": 240, "thorough": 3000}
 
 
@@ -501,7 +501,7 @@ def units(tier, seed):
     thorough = tier == "thorough"
     us = []
     for b in bases():
-        us.append({"kind": "chains", "base": b, "depth": (5 if b in ("1d_int", "2d") else 4) if thorough else (4 if b in ("1d_int", "1d_float", "2d") else 3)})
+        us.append({"kind": "chains", "base": b, "depth": (7 if b in ("1d_int", "2d") else 6) if thorough else (4 if b in ("1d_int", "1d_float", "2d") else 3)})
     us.append({"kind": "inexact"})
     us.append({"kind": "normalize"})
     us.append({"kind": "partial"})
